@@ -8,6 +8,9 @@ CONSTANTS
   PLabels = {"a", "b", "c"}
   PDepth = 3
   RefreshMode = "rereadLocal"
+  DirAtStart = TRUE
+  PersistMkdir = TRUE
+  LoaderExact = TRUE
 SPECIFICATION SpecR
 INVARIANTS TypeOK DiskIsASnapshot Converged NewestWins OneTemp
 PROPERTIES Terminates
